@@ -55,7 +55,7 @@ func (x *Exec) CheckFileSel(what string, sel map[string]bool) (*Accounting, *Fai
 		return &Fail{Kind: "mismatch", At: -1, Msg: what + " [" + class + "]: " + fmt.Sprintf(f, a...)}
 	}
 	_ = first
-	im, st, err := DecodeFile(x.Path, x.Cfg.PageSize)
+	im, st, err := DecodeBytes(x.FileBytes(), x.Cfg.PageSize)
 	if err != nil {
 		return nil, &Fail{Kind: "mismatch", At: -1, Msg: what + " [format]: " + err.Error()}
 	}
